@@ -1,28 +1,40 @@
 /*@unit {
  'kind': 'bounded', 'mode': 'plain',
- 'bound': 'free list of <= 3 chunks at symbolic offsets with symbolic sizes (one run per number of free chunks 0..3) in an arena of 128 bytes (thorough tier: also 256 bytes), the block being resized and one further arbitrary ghost live block at symbolic positions, new size symbolic (all of size_t); inductive in history: the pre-state is ANY state satisfying HEAP within this bound; unwinding is complete for these list lengths (unwinding assertions)',
+ 'bound': 'free list of <= 3 chunks at symbolic offsets with symbolic sizes in an arena of 128 bytes; QUICK TIER: only states without free chunks (NF = 0: moved through break extension, top chunk grown, unchanged; realloc(NULL)); THOROUGH TIER: one run per number of free chunks 0..3 (5-6 minutes each: realloc inlines malloc and free), the block being resized and one further arbitrary ghost live block at symbolic positions, new size symbolic (all of size_t); inductive in history: the pre-state is ANY state satisfying HEAP within this bound; unwinding is complete for these list lengths (unwinding assertions)',
  'functions': ['realloc', 'malloc', 'free'],
  'extract': 'units/C10/heap_extract.py',
  'clauses': 'realloc(p, len) from any state satisfying HEAP, p a live block or NULL: the block returned is 8-aligned with >= len usable bytes (and >= 8, so that it can be freed), lies inside the heap inside the arena, overlaps neither the free list nor any other live block (arbitrary ghost block); its first min(old size, new size) payload words equal the old contents (ghost word index: realloc preserves the common prefix), both when resized in place (shrink with the tail given back and coalesced, grow into the free upper neighbour - whole or split -, grow the topmost chunk by moving the break) and when moved (malloc + copy + free of the old block); HEAP is re-established and the real memory encodes exactly the derived state; every other live block keeps header and contents; live bytes change by exactly new chunk - old chunk; __allocation_counter still counts the live blocks; realloc(NULL, len) behaves as malloc(len); each path is reachable (canaries)',
- 'params': {'C10_ARENA': [128], 'NF': [0, 1, 2, 3]}, 'params_thorough': {'C10_ARENA': [128, 256]},
+ 'params': {'C10_ARENA': [128], 'NF': [0], 'NULLP': [0, 1]}, 'params_thorough': {'NF': [0, 1, 2, 3]},
  'unwindset': ['lin_realloc.0:4', 'lin_malloc.0:4', 'lin_free.0:4', 'lin_free.1:4'], 'unwind': 6,
  'complete_unwinding': 'the walks of realloc/malloc/free see at most 4 chunks (unwound 4 times, unwinding assertions); spec loops are bounded by C10_MAXN = 5',
  'kf': ['C10_malloc_never_fails', 'C10_malloc_round_wrap', 'C10_malloc_counter_limit', 'C10_realloc_zero_size', 'C10_realloc_shrink_counter'],
- 'kf_probe_case': {'C10_malloc_never_fails': {'C10_ARENA': 128, 'NF': 1}, 'C10_malloc_round_wrap': {'C10_ARENA': 128, 'NF': 1}, 'C10_malloc_counter_limit': {'C10_ARENA': 128, 'NF': 1},
-                   'C10_realloc_zero_size': {'C10_ARENA': 128, 'NF': 1}, 'C10_realloc_shrink_counter': {'C10_ARENA': 128, 'NF': 1}},
- 'canaries': 2, 'timeout': 900,
+ 'kf_probe_case': {'C10_malloc_never_fails': {'C10_ARENA': 128, 'NF': 0, 'NULLP': 0}, 'C10_malloc_round_wrap': {'C10_ARENA': 128, 'NF': 0, 'NULLP': 0}, 'C10_malloc_counter_limit': {'C10_ARENA': 128, 'NF': 0, 'NULLP': 0},
+                   'C10_realloc_zero_size': {'C10_ARENA': 128, 'NF': 0, 'NULLP': 0}, 'C10_realloc_shrink_counter': {'C10_ARENA': 128, 'NF': 0, 'NULLP': 0}},
+ 'canaries': 2, 'timeout': 1200,
  'assumptions': ['realloc(p, len): p is NULL or a live block handed out by malloc/realloc and not freed since (ISO C precondition)'],
  'witness': {'unwind': 6},
 } @*/
 #include "vc.h"
+#define C10_MEMCPY_CONTRACT
 #include "cxx/lin_heap.c"
 #include "c10_heap.h"
+
+/* one canary per path, compiled in only where that path exists for this run's number of free chunks NF and arena size
+ * (W words): minimal layouts  whole upper neighbour: [p2][F8][L2] = 12, split: [p2][F11][L2] = 15, top grown: [..][p -> 9],
+ * moved: [F9][L2][p2] = 13 or [p2][L2][new 9]; every further free chunk costs 2..4 words */
+#define W_ (C10_ARENA / 8)
+#define R_WHOLE (!NULLP && NF >= 1 && 12 + 4 * (NF - 1) <= W_)
+#define R_SPLIT (!NULLP && NF >= 1 && 15 + 4 * (NF - 1) <= W_)
+#define R_TOP (!NULLP && (NF == 0 ? 9 : 4 * NF + 7) <= W_)
+#define R_MOVED (!NULLP && (NF <= 1 ? 13 : NF == 2 ? 15 : 19) <= W_)
+#define R_SHRINK (!NULLP && KF_C10_realloc_shrink_counter != 1)   /* every shrinking input lies in that finding's region while it is open */
 
 void harness(void)
 {
     WIT(uchar, nf); WIT_ARR(uchar, wfo, C10_NCHUNK); WIT_ARR(uchar, wfs, C10_NCHUNK); WIT(uchar, wbrk);
     WIT(uchar, hasL); WIT(uchar, wLo); WIT(uchar, wLs); WIT(uchar, bw); WIT(int, nlive);
-    WIT(uchar, wpo); WIT(uchar, wps); WIT(uchar, pw); WIT(uchar, null); WIT(size_t, len);
+    WIT(uchar, wpo); WIT(uchar, wps); WIT(uchar, pw); WIT(size_t, len);
+    const int null = NULLP;            /* realloc(NULL, len) is a run of its own */
     C10_HEAP_STATE(nf, wfo, wfs, wbrk, 0, hasL, wLo, wLs, nlive);
     size_t po = wpo, ps = wps;
     size_t live0 = c10_abs_live(&c10_pre);
@@ -64,6 +76,9 @@ void harness(void)
     __CPROVER_assume(KF_C10_realloc_shrink_counter == 0 ? 1 : KF_C10_realloc_shrink_counter == 1 ? !(shrink_split && len != 0 && !wrap) : (shrink_split && len != 0 && !wrap));
 
     char *ptr = null ? NULL : c10_arena + 8 * (po + 1);
+#ifndef REPLAY
+    g_mc_kw = pw;
+#endif
     char *r = lin_realloc(ptr, len);
 
     struct c10_abs post = c10_pre;
@@ -84,14 +99,20 @@ void harness(void)
             if (!null) {
                 __CPROVER_assert(ro + 1 + rs <= po || po + 1 + ps <= ro, "realloc: the new block does not overlap the old one");
                 c10_abs_free(&post, po, ps);
+#if R_MOVED
                 CANARY("realloc path: moved (malloc, copy, free)");
+#endif
             } else {
+#if NULLP
                 CANARY("realloc path: realloc(NULL, len) == malloc(len)");
+#endif
             }
         } else if (rs < ps) {
             __CPROVER_assert(ps - rs >= 2, "realloc: a shrunk block gives back a tail that can hold a chunk");
             if (ps - rs >= 2) c10_abs_free(&post, po + 1 + rs, ps - rs - 1);
+#if R_SHRINK
             CANARY("realloc path: shrunk in place, tail freed");
+#endif
         } else if (rs > ps) {
             size_t d = rs - ps;
             uint j = C10_MAXN;
@@ -99,18 +120,38 @@ void harness(void)
                 if (i < post.n && post.fo[i] == po + 1 + ps) j = i;
             if (j < C10_MAXN) {
                 __CPROVER_assert(d == 1 + post.fs[j] || d + 1 <= post.fs[j], "realloc: growth into the upper neighbour takes it whole or leaves a free chunk that can hold a link");
-                if (d == 1 + post.fs[j]) { c10_abs_remove(&post, j); CANARY("realloc path: grown into the whole upper neighbour"); }
-                else { post.fo[j] += d; post.fs[j] -= d; CANARY("realloc path: grown into the upper neighbour, rest split off"); }
+                if (d == 1 + post.fs[j]) {
+                    c10_abs_remove(&post, j);
+#if R_WHOLE
+                    CANARY("realloc path: grown into the whole upper neighbour");
+#endif
+                } else {
+                    post.fo[j] += d; post.fs[j] -= d;
+#if R_SPLIT
+                    CANARY("realloc path: grown into the upper neighbour, rest split off");
+#endif
+                }
             } else {
                 __CPROVER_assert(po + 1 + ps == post.brk, "realloc: in-place growth without a free upper neighbour only at the top of the heap");
                 post.brk += d;
+#if R_TOP
                 CANARY("realloc path: topmost block grown by moving the break");
+#endif
             }
         } else {
+#if !NULLP
             CANARY("realloc path: size class unchanged, nothing to do");
+#endif
         }
         if (!null && pw < rs)
             __CPROVER_assert(C10_W(ro + 1 + pw) == old_pw, "realloc: the common prefix of the contents is preserved");
+#ifndef REPLAY
+        if (g_mc_calls)
+            __CPROVER_assert(g_mc_calls == 1 && r != ptr && g_mc_d == (void *)r && g_mc_s == (const void *)ptr && g_mc_n == 8 * ps && g_mc_n <= 8 * rs,
+                             "realloc: the one memcpy copies the whole old payload into the payload of the block returned");
+        else
+            __CPROVER_assert(null || r == ptr, "realloc: a moved block has been copied");
+#endif
         __CPROVER_assert(c10_abs_block_ok(&post, ro, rs), "realloc: the block lies inside [heap_start, __brkval) and overlaps no chunk on the free list");
         if (c10_hasL)
             __CPROVER_assert(ro + 1 + rs <= c10_Lo || c10_Lo + 1 + c10_Ls <= ro, "realloc: the block overlaps no other live block");
